@@ -154,7 +154,9 @@ _SERVER = {}
 def _start_server():
     from mpservice.socket import SocketApplication, SocketServer
 
-    path = os.path.join(tempfile.mkdtemp(prefix='c18_', dir='/tmp'), 'sock')
+    d = tempfile.mkdtemp(prefix='c18_', dir='/tmp')
+    _TMPDIRS.append(d)
+    path = os.path.join(d, 'sock')
     seen = []
 
     async def echo(req):
@@ -178,11 +180,19 @@ def _start_server():
     _SERVER.update(path=path, server=server, thread=th, seen=seen)
 
 
+_TMPDIRS = []
+
+
 def _stop_server():
+    import shutil
+
     s = _SERVER.get('server')
     if s is not None:
         s.to_shutdown = True
         _SERVER['thread'].join(5)
+    for d in _TMPDIRS:
+        shutil.rmtree(d, ignore_errors=True)
+    del _TMPDIRS[:]
 
 
 @st.composite
